@@ -432,7 +432,13 @@ fn verif_native_search_api() {
                 }
                 // (a struct / enum schema without title and without a name hint makes typify panic in
                 // get_type_name(..).unwrap(); that is outside C16, so a hint is always given)
-                let hint = Some(if rng.below(2) == 0 { name.to_string() } else { format!("{}X", name) });
+                // the hint may be the name of ANOTHER schema of the pool: by-name reuse of the top-level
+                // type while its inline sub-types are new
+                let hint = Some(match rng.below(3) {
+                    0 => name.to_string(),
+                    1 => format!("{}X", name),
+                    _ => pool[rng.below(pool.len() as u64) as usize].0.to_string(),
+                });
                 trace.push(format!("add_type_with_name({}, {:?})", name, hint));
                 let schema: schemars::schema::Schema = serde_json::from_value(v.clone()).unwrap();
                 match ts.add_type_with_name(&schema, hint) {
